@@ -7,6 +7,25 @@ META = {
  "technique": "TLA+ model checking (TLC) of the encoding design + trace validation of the real functions' results",
 }
 
+# Finding on the pinned commit:
+#   F16 truncfunc-untrimmed: ixkey.TruncFunc cuts the key before the n-th separator without trimming trailing
+#       empty fields (and passes unique-index keys with Fields2 through unchanged when the field counts are equal),
+#       so db19 CheckOtherIndex (full check) looks up "x\0\0" instead of "x" for a foreign key row (x, "") and
+#       reports a valid database as corrupt ("foreign key not found"). Reproduced end to end; re-found by
+#       trunc.ndjson on every seed; TLC shows it with IxKey_dev_trunc.cfg; fix: trim like Spec.Key.
+#
+# Mutation testing (scratch worktrees at the fix commits, VERIF_REPO=<dir> VERIF_SKIP_MC=1 bin/vcheck C12 quick, seed 1);
+# "tests" = go test ./db19/index/ixkey/ (M1: go test -short ./db19/)
+#   M1 db19/tran.go rangeEnd: the second byte of a separator is scanned again (miscounts)   tests RED    check VIOLATION
+#   M2 ixkey.go HasPrefix: only one zero byte required after the prefix                     tests green  check VIOLATION
+#   M3 ixkey.go Spec.Key: a last field "\x00" counts as empty when trimming                 tests RED    check VIOLATION
+#   M4 ixkey.go SplitPrefixSuffix: separator's second byte scanned again                    tests RED    check VIOLATION
+#   M5 ixkey.go Spec.Compare: Fields2 compared even when the primary fields are not empty   tests green  check VIOLATION
+#   M6 ixkey.go Decode1: only the first escaped zero of a field is unescaped                tests green  check VIOLATION
+#   M7 ixkey.go Encoder.String: a key that is a single escaped zero is trimmed away         tests green  check VIOLATION
+#   M8 ixkey.go JoinPrefixSuffix: separators counted as zero bytes / 2                      tests green  check VIOLATION
+
+
 def run(ctx):
     import os
     if os.environ.get("VERIF_SKIP_MC") == "1":   # development aid for mutation runs only
@@ -34,13 +53,13 @@ def conformance(ctx):
         raise __import__("vlib").Infra("ixkey driver failed rc=%d:\n%s" % (rc, out[-3000:]))
     main = ctx.work + "/ixkey.ndjson"
     ctx.sample_trace_lines(main, 4)
-    res = ctx.tlc_trace("TraceIxKey.tla", "TraceIxKey.cfg", main, timeout=1500, ntraces=summ.get("main", 1))
+    res = ctx.tlc_trace("TraceIxKey.tla", "TraceIxKey.cfg", main, timeout=1500, ntraces=1)
     if not res["accepted"]:
         ctx.report_rejection(main, res)
     # TruncFunc is validated separately so that a rejection there (finding F16: no trimming
     # of trailing empty fields at the pinned commit) does not hide the rest
     p = ctx.work + "/trunc.ndjson"
-    res = ctx.tlc_trace("TraceIxKey.tla", "TraceIxKey.cfg", p, timeout=900, ntraces=summ.get("trunc", 1))
+    res = ctx.tlc_trace("TraceIxKey.tla", "TraceIxKey.cfg", p, timeout=900, ntraces=1)
     if not res["accepted"]:
         ctx.report_rejection(p, res, key="truncfunc-untrimmed")
     for k in ("Key", "Cmp", "Enc", "Dec", "HasPrefix", "Split", "Join", "Trunc", "RangeEnd", "InRange"):
